@@ -107,6 +107,29 @@ def main(args):
             cc = {k: v for k, v in c.items() if k != "journal"}
             run.diverge(sig, "%s  [options %s, formats %s in %s; text %r]" % (what, c["opts"], [x["txt"] for x in c.get("formats", [])], c.get("place"), f.text[:300]),
                         {"spec_case": cc}, {"edits": f.edits, "formatted": f.formatted, "edits2": f.edits2}, trigger=c04.trigger_of(c))
+    # the same documents with CR LF line ends (every fourth valid case): the edit list must be well-formed there as well --
+    # a line ends before its CR
+    import lspedit
+    crlf = [c for i, c in enumerate(cases) if c["fam"] != "broken" and (i + run.seed) % 4 == 0 and c.get("place") != "workspace"]
+    if args.replay and rp["case"].get("crlf"):
+        crlf = cases
+    hcs = []
+    for i, c in enumerate(crlf):
+        hc = fcommon.script_case(i, c, ("\r\n".join(c["lines"]) + "\r\n").encode("utf-8"))
+        if hc is not None:
+            hcs.append((c, hc))
+    for (c, hc), res in zip(hcs, run.harness("script", [h for _, h in hcs], timeout=3000) if hcs else []):
+        if "panic" in res:
+            continue
+        text = hc["ops"][0]["text"]
+        edits = res["steps"][1].get("reply") or []
+        run.count(vf.digest(["crlf", c["lines"], c["opts"]]), len(edits) > 0)
+        bad = lspedit.validate_edits(text, edits)
+        if bad:
+            sig, what = bad[0]
+            table[(c["fam"], "crlf:" + sig)] += 1
+            cc = {k: v for k, v in c.items() if k != "journal"}
+            run.diverge("crlf:" + sig, "%s  [the document with CR LF line ends; options %s; text %r]" % (what, c["opts"], text[:200]), {"spec_case": cc, "crlf": True}, {"edits": edits[:6]})
     if os.environ.get("VERIF_TABLE"):
         for k, n in sorted(table.items(), key=str):
             print("TABLE", k, n)
@@ -127,5 +150,11 @@ def main(args):
 
 def confirm(run, d):
     c = d["case"]["spec_case"]
+    if d["case"].get("crlf"):
+        import lspedit
+        hc = fcommon.script_case(0, c, ("\r\n".join(c["lines"]) + "\r\n").encode("utf-8"))
+        res = run.harness("script", [hc])[0]
+        bad = lspedit.validate_edits(hc["ops"][0]["text"], res["steps"][1].get("reply") or [])
+        return any("crlf:" + sig == d["sig"] for sig, _ in bad)
     outs = fcommon.run_format(run, [c])
     return outs[0] is not None and any(sig == d["sig"] for sig, _ in evaluate(outs[0]))
